@@ -168,8 +168,10 @@ func ownerOf(fi fs.FileInfo) (int, int) {
 
 // Dump returns the canonical fields of every entry below sub (sub itself excluded), sorted by
 // path, paths relative to sub: path kind mode uid gid mtime data (7 fields per entry).
-func (rc *RealCase) Dump(sub string) []string {
-	root := rc.Root + sub
+func (rc *RealCase) Dump(sub string) []string { return rc.DumpAbs(rc.Root + sub) }
+
+// DumpAbs is Dump for any directory of the real filesystem.
+func (rc *RealCase) DumpAbs(root string) []string {
 	var paths []string
 	_ = filepath.Walk(root, func(p string, info fs.FileInfo, err error) error {
 		if err != nil {
